@@ -5,5 +5,9 @@ CONSTANTS MaxOps = 1
   GScales <- ScalesSmall
   Targets <- TargetsAll
   Patterns = {1, 2}
+PROPERTY ScaleExact
+PROPERTY UnknownScaleRaises
+PROPERTY GetScalePure
+PROPERTY RoundTrip
 INVARIANT Emitted
 CHECK_DEADLOCK FALSE
